@@ -100,6 +100,22 @@ def gen_setops(ops, with_trees=False):
                         cases += membership_cases([[op, a, b]], probes)
                     else:
                         cases.append(dump([op, a, b]))
+        if 'allows_all' in ops:
+            # receivers made of two alternatives that meet at one version (with every combination of inclusivity: a hole, a junction,
+            # an overlap at a point) against every single interval: what a coalescing "optimisation" of the receiver would get wrong
+            srt0 = sorted(univ, key=lambda v: (v[:3], 0 if v[3] else 1, [(0, i, '') if isinstance(i, int) else (1, 0, i) for i in v[3]]))
+            meet = []
+            for i in range(len(srt0)):
+                m = vtext(srt0[i])
+                lo = vtext(srt0[i - 1]) if i > 0 else None; hi = vtext(srt0[i + 1]) if i + 1 < len(srt0) else None
+                for l_op, r_op in (('<', '>'), ('<=', '>'), ('<', '>='), ('<=', '>=')):
+                    meet.append('%s%s || %s%s' % (l_op, m, r_op, m)); meet.append('%s%s || %s%s' % (r_op, m, l_op, m))
+                    if lo and hi: meet.append('>=%s %s%s || %s%s <=%s' % (lo, l_op, m, r_op, m, hi))
+            for t in meet:
+                a = E_parse(t)
+                cases += membership_cases([a], probes)
+                for b in valid:
+                    cases.append(dump(['allows_all', a, b])); cases.append(dump(['allows_any', a, b]))
         # multi-alternative random pairs
         pool = univ + [V(0, 0, 0), V(1, 2, 3), V(2, 1, 0, ('beta', 2)), V(0, 1, 5), V(1, 0, 1, ('a',))]
         probes2 = probe_versions(pool)
